@@ -206,3 +206,120 @@ func ruleExtractorCoversKinds(c *Ctx, rule string) {
 	c.R.Check(numeric.SubsetOf(got), rule, "extractor:numeric-kinds", c.P.Pos(ext.Pos()), fmt.Sprintf("the extractor can succeed for every kind in %s", numeric),
 		fmt.Sprintf("the number extractor succeeds only for the numeric kinds %s, not for all of %s: a value of the missing kind is still an integer for `type` and for the inferred schema, but minimum, maximum and multipleOf are skipped for it and it never equals the same number in enum or const", got&numeric, numeric))
 }
+
+func init() {
+	for _, pid := range []string{"C15", "C03", "C05"} {
+		pid := pid
+		Properties[pid].Rules = append(Properties[pid].Rules, Rule{pid + "/no-error-passed-over-in-a-loop", func(c *Ctx) { ruleNoErrorPassedOver(c, pid+"/no-error-passed-over-in-a-loop") }})
+	}
+}
+
+// Inside a loop, the branch taken when a call has returned a non-nil error ends in a return (or a panic): it never
+// goes on with the next element. (`if err != nil { if harmless(x) { continue }; return err }` makes the function
+// report success for an element it could not examine.) Package-wide.
+func ruleNoErrorPassedOver(c *Ctx, rule string) {
+	n := 0
+	for _, fn := range c.P.Funcs {
+		if !c.P.InPkg(fn) || (fn.Synthetic != "" && !isRangeFuncBody(fn)) {
+			continue
+		}
+		k := 0
+		for _, b := range fn.Blocks {
+			ifi, ok := b.Instrs[len(b.Instrs)-1].(*ssa.If)
+			if !ok {
+				continue
+			}
+			x, kc, equal, isEq := eqConst(guardAtom{Cond: ifi.Cond, Pol: true})
+			if !isEq || !kc.IsNil() || !isErrorType(x.Type()) {
+				continue
+			}
+			// the value is what a call returned
+			switch v := x.(type) {
+			case *ssa.Call:
+			case *ssa.Extract:
+				if _, isCall := v.Tuple.(*ssa.Call); !isCall {
+					continue
+				}
+			default:
+				continue
+			}
+			h := loopHeaderOf(b)
+			inBody := h == nil && isRangeFuncBody(fn)
+			if h == nil && !inBody {
+				continue
+			}
+			t := b.Succs[0]
+			if equal {
+				t = b.Succs[1]
+			}
+			n++
+			k++
+			// can the header be reached again from the error branch without leaving the function?
+			seen := map[*ssa.BasicBlock]bool{}
+			again := false
+			var walk func(q *ssa.BasicBlock)
+			walk = func(q *ssa.BasicBlock) {
+				if seen[q] || again {
+					return
+				}
+				seen[q] = true
+				if inBody {
+					// the body of a range-over-func loop: `continue` is `return true`
+					if ret, ok := q.Instrs[len(q.Instrs)-1].(*ssa.Return); ok && len(ret.Results) == 1 {
+						if kc, ok := ret.Results[0].(*ssa.Const); ok && kc.Value != nil && kc.Value.String() == "true" {
+							again = true
+							delete(seen, q)
+						}
+						return
+					}
+				} else {
+					if q == h {
+						again = true
+						return
+					}
+					if !inLoopOf(h, q) {
+						return
+					}
+				}
+				for _, s := range q.Succs {
+					walk(s)
+				}
+			}
+			walk(t)
+			if again {
+				// the verdict of the evaluator is a signal, not a failure of the function
+				if call, ok := errCall(x); ok && call.Call.StaticCallee() != nil && call.Call.StaticCallee() == c.Evaluator(rule) {
+					again = false
+				}
+				// the error is recorded on the way (collected, reported through a callback)
+				if refs := x.Referrers(); refs != nil {
+					for _, r := range *refs {
+						if r == ssa.Instruction(nil) || r.Block() == nil || !seen[r.Block()] || r.Block() == h {
+							continue
+						}
+						if bo, isBo := r.(*ssa.BinOp); isBo && ssa.Value(bo) == ifi.Cond {
+							continue
+						}
+						if _, isRet := r.Block().Instrs[len(r.Block().Instrs)-1].(*ssa.Return); isRet {
+							continue
+						}
+						again = false
+					}
+				}
+			}
+			c.R.Check(!again, rule, fmt.Sprintf("%s:error-branch#%d", core.FuncName(fn), k), c.pos(ifi), "the error branch leaves the loop", "inside a loop, the branch taken when a call has failed can go on with the next element instead of returning the error: the function reports success although it could not examine that element (a default that cannot be decoded is never checked, a document that cannot be read is skipped)")
+		}
+	}
+	c.R.Floor(rule, "error tests inside loops", n, 10)
+}
+
+func errCall(x ssa.Value) (*ssa.Call, bool) {
+	switch v := x.(type) {
+	case *ssa.Call:
+		return v, true
+	case *ssa.Extract:
+		cc, ok := v.Tuple.(*ssa.Call)
+		return cc, ok
+	}
+	return nil, false
+}
